@@ -145,6 +145,7 @@ func run(r *vk.Run) {
 	mixedValueSubscribers(r)
 	joinDuringWrite(r)
 	manyIds(r)
+	deleteWaitsForDelivery(r)
 	pullIDEndedThenWrites(r)
 	publishOrder(r)
 	lateSubscriber(r)
@@ -849,6 +850,74 @@ func pullIDEndedThenWrites(r *vk.Run) {
 			r.Violation("C09/dropped-with-backpressure/pull/next-to-an-ended-pullid", fmt.Sprintf("a backpressured updates-only Pull next to a PullID(a) (%s) that ended by removal received %d events for 7 writes", mode, n), map[string]any{"bp": bp})
 		}
 		stopAll()
+	}
+}
+
+// deleteWaitsForDelivery: with backpressure "writers wait for delivery", whatever the kind of write. A backpressured
+// collection subscriber takes its seed and then stops receiving; two updates fill the hand-over stages; the Delete
+// that follows has not returned at the quiescent point, returns once the subscriber receives again, and the
+// subscriber gets all three events.
+func deleteWaitsForDelivery(r *vk.Run) {
+	for i, kind := range []string{"pull", "pullid"} {
+		if !r.Mine(i) {
+			continue
+		}
+		col := resource.NewCollection(resource.WithClock(clk{}), resource.WithInitialRecord("a", mkValLocked("a")))
+		ctx, cancel := context.WithCancel(context.Background())
+		c := newConsumer()
+		c.cancel = cancel
+		if kind == "pull" {
+			c.runCol(col.Pull(ctx, resource.WithBackpressure(true)))
+		} else {
+			c.runVal(col.PullID(ctx, "a", resource.WithBackpressure(true)))
+		}
+		c.grant(1) // the seed
+		if _, ok := r.MustQuiesce("c09-delete-waits-open"); !ok {
+			c.stop()
+			return
+		}
+		// updates until one of them has to wait for the idle subscriber (the hand-over stages are full)
+		var ups []*vk.Task
+		updatesWaiting := false
+		for k := 0; k < 8 && !updatesWaiting; k++ {
+			t := vk.Go(func() { col.Update("a", mkValLocked("a")) })
+			ups = append(ups, t)
+			r.MustQuiesce("c09-delete-waits-updates")
+			updatesWaiting = !t.Done()
+		}
+		del := vk.Go(func() { col.Delete("a") })
+		if _, ok := r.MustQuiesce("c09-delete-waits-delete"); !ok {
+			c.stop()
+			return
+		}
+		r.Eval(1)
+		r.Count("delete-waits-for-delivery-scenarios", 1)
+		r.Distinct("deletewaits|" + kind)
+		if updatesWaiting && del.Done() {
+			r.Violation("C09/bp-writers-do-not-wait/"+kind+"/delete", fmt.Sprintf("a backpressured %s subscriber stopped receiving after its seed; update #%d is waiting for it; the Delete issued after it has returned although neither was delivered", kind, len(ups)), map[string]any{"kind": kind})
+		}
+		upd := vk.Go(func() {
+			for _, t := range ups {
+				t.Wait()
+			}
+		})
+		c.grant(1 << 20)
+		if _, ok := r.MustQuiesce("c09-delete-waits-drain"); ok {
+			if !upd.Done() || !del.Done() {
+				r.Violation("C09/writer-blocked/"+kind+"/bp/delete-after-updates", "the subscriber receives again but the writers have not returned at the quiescent point", map[string]any{"kind": kind})
+				c.stop()
+				return
+			}
+			n := c.nCol()
+			want := 1 + len(ups) + 1 // seed + updates + remove
+			if kind == "pullid" {
+				n, want = c.nVal(), 1+len(ups) // the removal closes the stream
+			}
+			if n != want {
+				r.Violation("C09/dropped-with-backpressure/"+kind+"/delete-after-updates", fmt.Sprintf("the backpressured %s subscriber received %d events, want %d (seed, %d updates%s)", kind, n, want, len(ups), map[bool]string{true: ", remove", false: ""}[kind == "pull"]), map[string]any{"kind": kind})
+			}
+		}
+		c.stop()
 	}
 }
 
